@@ -154,6 +154,9 @@ func (h *history) op(f []string) string {
 		ch := l.Use(-1) // answered before the lock is taken; the channel is made like every other answer channel
 		id := h.nreq
 		h.nreq++
+		if cap(ch) >= 1 { // more room than the one answer needs is the implementation's business
+			return "r" + strconv.Itoa(id) + " room-for-the-answer"
+		}
 		return "r" + strconv.Itoa(id) + " cap=" + strconv.Itoa(cap(ch))
 	case len(f) == 1 && f[0] == "tick":
 		if h.rootClosed {
